@@ -6,9 +6,10 @@ res = {}
 p = os.path.join(root, "RESULTS.txt")
 if os.path.exists(p):
     for l in open(p):
-        k = l.split()[0]
-        m = re.search(r"check (C\d\d) rc=(\d+)", l)
-        res[k] = ("no patch" if "does not apply" in l else "rc=" + m.group(2)) if m or "does not apply" in l else "?"
+        if l.startswith("#") or not l.strip():
+            continue
+        k, v = l.split(None, 1)
+        res[k] = v.strip()
 print("| change | what it does | first try | final quick run | what catching it took |")
 print("|---|---|---|---|---|")
 for d in sorted(os.listdir(root)):
